@@ -326,9 +326,43 @@ class SeqResult:
         self.crashed = False
 
 
-def run_sequences(seqs, workdir, tag="gen", binary=None, impl_env=None):
+def annotate_expect(seqs, workdir, tag):
+    """Two-pass protocol for engines whose implementation side has to wait for asynchronous collector requests: the
+    model is run first and the number of requests it predicts for each op is appended as `expect=<n>` (the Lean
+    engines ignore that token)."""
+    os.makedirs(workdir, exist_ok=True)
+    ops_path = os.path.join(workdir, tag + ".pre.ops")
+    with open(ops_path, "w") as f:
+        for name, ops in seqs:
+            f.write("reset\n")
+            for o in ops:
+                f.write(o + "\n")
+    p = subprocess.run([DRIVER, "model"], stdin=open(ops_path), stdout=subprocess.PIPE, stderr=subprocess.PIPE, text=True, timeout=900)
+    if p.returncode != 0:
+        raise RuntimeError("lean driver failed: " + p.stderr[-2000:])
+    lines = p.stdout.split("\n")
+    out, i = [], 0
+    for name, ops in seqs:
+        i += 1
+        new = []
+        for o in ops:
+            m = lines[i] if i < len(lines) else ""
+            i += 1
+            k = m.find("reqs=")
+            if k >= 0:
+                body = m[k + 5:].strip()       # `reqs=` is always the last field of a result line
+                n = 0 if body in ("-", "") else body.count(";") + 1
+                o = o + " expect=%d" % n
+            new.append(o)
+        out.append((name, new))
+    return out
+
+
+def run_sequences(seqs, workdir, tag="gen", binary=None, impl_env=None, expect=False):
     """seqs: list of (name, [op lines]).  Every sequence is preceded by `reset`.  Returns list of SeqResult."""
     os.makedirs(workdir, exist_ok=True)
+    if expect:
+        seqs = annotate_expect(seqs, workdir, tag)
     ops_path = os.path.join(workdir, tag + ".ops")
     impl_path = os.path.join(workdir, tag + ".impl")
     bounds = []
